@@ -171,6 +171,36 @@ def r7(F, rep):
                  "kept for analytic evaluation outside the grid)")
 
 
+def r8(F, rep):
+    rep.rule("C05-R8", "the list of hills evaluated analytically outside the grid is derived from the grid in force: "
+                       "recount_hills_off_grid() reads the boundaries of hills_energy, so in every function that also replaces "
+                       "hills_energy the recount comes after the last replacement, and a function that rebins the grids after a "
+                       "restart does recount")
+    from .rules_c10 import lvalue_writes
+    n = 0
+    for f in F.funcs.values():
+        if f.cls != "colvarbias_meta" or not f.cfg.ok:
+            continue
+        rec = [c for c in X.calls(f) if X.callee_name(c) == "recount_hills_off_grid"]
+        wr = [w for w, t in lvalue_writes(f) if X.key(t, f) == "this.hills_energy" and not (w["k"] == "UnaryOperator")]
+        wr = [w for w in wr if w["k"] in ("CXXOperatorCallExpr", "BinaryOperator") and w.get("op") == "=" or
+              (w["k"] == "CXXMemberCallExpr" and X.callee_name(w) == "reset")]
+        if f.name == "rebin_grids_after_restart":
+            n += 1
+            rep.add("C05-R8", "%s|recounts" % f.q, f.loc(), "%s replaces hills_energy (%d site) and recounts the off-grid hills (%d call)" % (f.q, len(wr), len(rec)),
+                    bool(wr) and bool(rec), func=f.q)
+        if not rec or not wr:
+            continue
+        for c in rec:
+            n += 1
+            late = [w for w in wr if f.cfg.can_reach(c, w)]
+            rep.add("C05-R8", "%s|order" % f.q, f.loc(c), "%s: recount_hills_off_grid() %s" % (f.q, "follows every replacement of hills_energy" if not late
+                    else "is followed by a replacement of hills_energy: the list is built against the OLD boundaries"), not late,
+                    detail="hills near the new boundaries are missing from the analytic sum: energy and force drop when the variable leaves the grid", func=f.q)
+    if n < 2:
+        raise AnalysisBroken("C05-R8: rebin_grids_after_restart / recount_hills_off_grid not found")
+
+
 def run(F, rep, tier):
     r1(F, rep)
     r2(F, rep)
@@ -178,3 +208,4 @@ def run(F, rep, tier):
     r4(F, rep)
     r5_r6(F, rep)
     r7(F, rep)
+    r8(F, rep)
